@@ -254,7 +254,11 @@ func LargeGroup(rng *h.Rng, qualifying bool) string {
 			reps = t + 1
 		}
 		for r := 0; r < reps; r++ {
-			es = append(es, append(ValidShare(coeffs, hs, i), rng.Bytes(1+r)...))
+			tail := rng.Bytes(1 + r)
+			if rng.Intn(4) == 0 {
+				tail = Tail(rng)
+			}
+			es = append(es, append(ValidShare(coeffs, hs, i), tail...))
 		}
 	}
 	// below-threshold padding
